@@ -78,8 +78,28 @@ def _watchdog(stop, killed):
                         pass
 
 
+def _load_costs():
+    p = os.path.join(ROOT, "contracts", "costs.json")
+    try:
+        with open(p) as fh:
+            return json.load(fh)
+    except Exception:
+        return {}
+
+
+COSTS = _load_costs()
+
+
+def _cost(o):
+    """estimated seconds (scheduling hint only): measured value from contracts/costs.json, else a guess"""
+    c = COSTS.get(o.name)
+    if c is None:
+        c = 200 if o.heavy else (60 if o.checks != "full" else 10)
+    return max(float(c), 3.0)
+
+
 def _group_key(o):
-    return (o.crate, o.checks, "heavy" if o.heavy else "light")
+    return (o.crate, o.checks, "heavy" if (_cost(o) >= 110 or o.heavy) else "light")
 
 
 def kani_cmd(crate_dir, harnesses, checks, timeout, json_out, jobs):
@@ -117,14 +137,14 @@ def run(obs, scratch, scratch_repo, log, seed=0):
     env.pop("RUSTUP_TOOLCHAIN", None)
     try:
         # heavy groups first, then by size; groups are independent cargo invocations: up to three at a time
-        keys = sorted(groups, key=lambda k: (k[2] != "heavy", -len(groups[k])))
+        keys = sorted(groups, key=lambda k: -sum(_cost(o) for o in groups[k]))
         par = min(3, len(keys))
         jobs_each = JOBS if par == 1 else (10 if par == 2 else 7)
         # split the cores over the first `par` groups in proportion to their weight (estimated cost: heavy 4, functional 2, full-check scalar harnesses 0.5)
-        wt = {k: len(groups[k]) * (4.0 if k[2] == "heavy" else (2.0 if k[1] != "full" else 0.5)) for k in keys}
+        wt = {k: sum(_cost(o) for o in groups[k]) for k in keys}
         first = keys[:par]
         tot = sum(wt[k] for k in first) or 1
-        share = {k: (max(2, int(round((JOBS + 2) * wt[k] / tot))) if k in first else jobs_each) for k in keys}
+        share = {k: (max(1, int(round((JOBS + 2) * wt[k] / tot))) if k in first else 4) for k in keys}
 
         def one(key):
             crate, checks, weight = key
